@@ -34,24 +34,33 @@ static void *g_region_qnode;
 // before a region the (empty) queue's cursor is moved to the start of a node, so that the next 63 appended resumptions
 // cannot need a node, and a 512-byte allocation inside the region is charged like any other unless the queue's end has
 // really moved on to another node.
-static void region_begin() {
-    auto &q = cocls::coro_queue::queue_impl::instance._queue;
-    g_region_qnode = nullptr;
-    if (!cocls::coro_queue::is_active() && q.empty()) {
-        int guard = 0;
-        while (q._M_impl._M_start._M_cur != q._M_impl._M_start._M_first && guard++ < 200) {
-            q.push_back(std::coroutine_handle<>());
-            q.pop_front();
+// (The queue is reached by member name and by the layout of libstdc++'s deque; if either is not what it was - a renamed member, another
+// container - the adjustment is skipped and every 512-byte allocation is left out of the count instead: weaker, never an alarm.)
+template <typename QI>
+static void *queue_align_and_end_node(QI &qi, bool align) {
+    if constexpr (requires { qi._queue._M_impl._M_start._M_cur; qi._queue._M_impl._M_finish._M_node; qi._queue.push_back(std::coroutine_handle<>()); qi._queue.pop_front(); }) {
+        auto &q = qi._queue;
+        if (align) {
+            if (cocls::coro_queue::is_active() || !q.empty()) return nullptr;
+            int guard = 0;
+            while (q._M_impl._M_start._M_cur != q._M_impl._M_start._M_first && guard++ < 200) {
+                q.push_back(std::coroutine_handle<>());
+                q.pop_front();
+            }
         }
-        g_region_qnode = (void *)q._M_impl._M_finish._M_node;
-    }
+        return (void *)q._M_impl._M_finish._M_node;
+    } else
+        return nullptr;
+}
+static void region_begin() {
+    g_region_qnode = queue_align_and_end_node(cocls::coro_queue::queue_impl::instance, true);
     g_region_start = seqx::news();
     g_region_start512 = seqx::g_news_512;
 }
 static uint64_t region_allocs() {
-    auto &q = cocls::coro_queue::queue_impl::instance._queue;
     uint64_t nodes = seqx::g_news_512 - g_region_start512;
-    if (g_region_qnode && (void *)q._M_impl._M_finish._M_node == g_region_qnode) nodes = 0;  // the queue's end never left its node
+    void *end_node = queue_align_and_end_node(cocls::coro_queue::queue_impl::instance, false);
+    if (g_region_qnode && end_node && end_node == g_region_qnode) nodes = 0;  // the queue's end never left its node
     g_queue_nodes_total += nodes;
     return seqx::news() - g_region_start - nodes;
 }
